@@ -22,7 +22,7 @@ from feems.system_model import ElectricPowerSystem
 from feems.types_for_feems import TypeComponent, TypePower, Power_kW, Speed_rpm, SwbId
 
 THEOREMS = ["step_inv", "grouping_from", "grouping", "order_free", "orientation_free", "count", "renumber_iff",
-            "renumber_range", "busMap_iff", "change_at_step", "grouping_at_step",
+            "renumber_range", "busMap_iff", "noBus_le", "bus_sum_defined", "single_bus_is_one", "legacy_single_undefined", "change_at_step", "grouping_at_step",
             "legacy_out_of_order_chain", "legacy_ring_zero_buses", "legacy_join_groups_refused"]
 
 
@@ -58,7 +58,8 @@ def partition_of(mapping):
 
 
 def gen_case(rng, idx):
-    n_swb = int(rng.choice([1, 2, 3, 4, 5, 6, 7], p=[0.05, 0.15, 0.25, 0.2, 0.15, 0.1, 0.1]))
+    # also plants with more than eight breakers (a status column then no longer fits one byte)
+    n_swb = int(rng.choice([1, 2, 3, 4, 5, 6, 7, 9, 10, 12], p=[0.05, 0.13, 0.22, 0.18, 0.13, 0.09, 0.08, 0.04, 0.04, 0.04]))
     if rng.random() < 0.5:
         swbs = list(range(1, n_swb + 1))
     else:
@@ -79,7 +80,7 @@ def gen_case(rng, idx):
             ends = list(zip(perm, perm[1:])) + [(perm[1], perm[0])]
         else:
             allp = list(itertools.combinations(swbs, 2))
-            k = int(rng.integers(1, min(len(allp), 8) + 1))
+            k = int(rng.integers(1, min(len(allp), 8 if n_swb < 7 else 16) + 1))
             ends = [allp[i] for i in rng.choice(len(allp), size=k, replace=False)]
         ends = [(b, a) if rng.random() < 0.5 else (a, b) for a, b in ends]
         ends = [ends[i] for i in rng.permutation(len(ends))]
@@ -94,6 +95,11 @@ def gen_case(rng, idx):
             for t in range(1, n):
                 if rng.random() < 0.7:
                     row[t] = row[t - 1]
+    if ends and n > 1 and rng.random() < 0.3:          # one breaker operated per step, the others stay as they are
+        for t in range(1, n):
+            j = int(rng.integers(0, len(ends)))
+            for i, row in enumerate(status):
+                row[t] = (not row[t - 1]) if i == j else row[t - 1]
     second = [[bool(rng.random() < 0.5) for _ in range(n)] for _ in ends] if (ends and rng.random() < 0.5) else None
     return {"idx": idx, "swbs": swbs, "ends": [list(e) for e in ends], "status": status, "n": n, "shape": shape, "second": second,
             "api": str(rng.choice(["all", "each"])), "dtype": str(rng.choice(["bool", "int", "float"], p=[0.5, 0.25, 0.25]))}
